@@ -153,7 +153,11 @@ class Session:
         if o in ("adv", "advl", "advbad"):
             n = len(self.sent)
             if o == "adv":
-                b.advertise(unhx(toks[1]), int(toks[2]))
+                self._buf = getattr(self, "_buf", bytearray())      # the application's ONE buffer, re-used
+                self._buf[:] = unhx(toks[1])
+                b.advertise(self._buf, int(toks[2]))
+                if bytes(self._buf) != unhx(toks[1]):
+                    return "caller-buffer-modified"
             elif o == "advl":
                 items = [] if toks[1] == "[]" else [unhx(x) for x in toks[1].split(",")]
                 b.advertise(tuple(items) if len(items) % 2 else items)
